@@ -7,14 +7,18 @@ import (
 	eventbus "github.com/jilio/ebu"
 )
 
-//verif:entry property=C12 tier=both bounds="SQLite store (events + subscription offsets) through the database/sql model (incl. its connection-pool limit), file-backed or :memory:, AUTOINCREMENT base position p in [0,200]: every history of H steps out of {publish subscribed type, publish other type, SubscribeWithReplay for one of two ids (once per id and bus), restart}; no fault; drain restart at the end and one more restart; exactly-once and log order per id" cover="drained" H_quick=4 H_thorough=5
+//verif:entry property=C12 tier=both bounds="SQLite store (events + subscription offsets) through the database/sql model (incl. its connection-pool limit), file-backed (streaming in one query or in batches of one row) or :memory:, AUTOINCREMENT base position p in [0,200]: every history of H steps out of {publish subscribed type, publish other type, SubscribeWithReplay for one of two ids (once per id and bus), restart}; no fault; drain restart at the end and one more restart; exactly-once and log order per id" cover="drained" H_quick=4 H_thorough=5
 func harnessC12SqliteHistory() {
 	H := vParam("H", 4)
 	path := "/tmp/gosx-c12-a.db"
-	if vBool() {
+	var sopts []Option
+	switch vPick(3) {
+	case 1:
 		path = ":memory:" // the store configures in-memory databases differently (DSN, pool)
+	case 2:
+		sopts = append(sopts, WithStreamBatchSize(1)) // the store streams row by row, one query per batch
 	}
-	st := mustNew(path)
+	st := mustNew(path, sopts...)
 	vsqlSetBase(st, vInt(0, 200))
 	type del struct{ n, run int }
 	ids := [2]string{"sub", "sub-b"}
